@@ -10,7 +10,7 @@
    window_is_lastn and check_schedule_sound.  What stays outside Coq: that rex's own Python to_graph/apply_window/supergraph code establishes same_graph for EVERY record
    (it is validated, not proved), jit/XLA, floats off the lattice. *)
 From Coq Require Import List Arith ZArith Bool.
-From Rex Require Import KahnL AsyncModel2 AsyncStable ConflInv RexDet AsyncLaws AsyncLaws2 AsyncLaws3 AsyncLaws4 CompiledModel WindowSpec WindowPush RunnerSym CheckSym Dataflow Replay AsyncDataflow ReplayAsync.
+From Rex Require Import KahnL AsyncModel2 AsyncStable ConflInv RexDet AsyncLaws AsyncLaws2 AsyncLaws3 AsyncLaws4 CompiledModel WindowSpec WindowPush RunnerSym CheckSym Dataflow Replay AsyncDataflow ReplayAsync ExportWindows ExportReplay.
 Open Scope Z_scope.
 
 (* uniqueness of solutions of the dataflow equations: two traces over the same windowed graph, step function and initial values agree wherever both are defined *)
@@ -90,3 +90,32 @@ Print Assumptions C01_end_to_end_instance.
 Theorem C01_end_to_end_defined : T_a exG exS 1%nat 2 = Some (1943, 17693) /\ Tc e2_inst (2 :: 1 :: nil) 0 3 1%nat 2 = Some (1943, 17693).
 Proof. exact @e2_defined. Qed.
 Print Assumptions C01_end_to_end_defined.
+(* C01 with the record->graph conversion and apply_window INSIDE the theorem: for every asynchronous system G, every reachable state s (recorded prefix, any schedule), the compiled instance I := export G s slots .. (vertices/edges = the record, windows = win_model = apply_window) and ANY slots (the external partitioner's output) that pass the three decidable checks check_schedule, check_replay, sched_ok: the compiled replay and the recorded asynchronous execution agree (state before, output) on every vertex both executed *)
+Theorem C01_replay_reproduces_async_export : forall (G : cfg) (s : state) (slots : list slot) (ngen nparts sup : nat) (sizes : list Z) (p0 np : nat), let I := export G s slots ngen nparts sup in reach G s -> check_schedule I = true -> check_replay I sizes p0 np = true -> sched_ok I p0 np = true -> forall (n : nat) (k : Z) (x1 x2 : Z * Z), T_a G s n k = Some x1 -> Tc I sizes p0 np n k = Some x2 -> x1 = x2.
+Proof. exact @replay_reproduces_async_export. Qed.
+Print Assumptions C01_replay_reproduces_async_export.
+
+(* apply_window of the exported record yields, for receiver step k, exactly the window (seq, ts_sent, ts_recv per entry) the asynchronous step k saw on that connection *)
+Theorem C01_export_same_windows : forall (G : cfg) (s : state) (slots : list slot) (ngen nparts sup c n i k : nat) (r : AsyncModel2.row), reach G s -> nth_error (ins G n) i = Some c -> nth_error (rows_of s n) k = Some r -> nth k (win_model (export G s slots ngen nparts sup) c) nil = strip3 (nth i (r_wins r) nil).
+Proof. exact @export_same_windows. Qed.
+Print Assumptions C01_export_same_windows.
+
+(* hypothesis (ii) of C01_replay_reproduces_async discharged for the exported record from checks on the schedule only *)
+Theorem C01_export_same_graph : forall (G : cfg) (s : state) (slots : list slot) (ngen nparts sup : nat) (sizes : list Z) (p0 np : nat), let I := export G s slots ngen nparts sup in reach G s -> check_schedule I = true -> check_replay I sizes p0 np = true -> sched_ok I p0 np = true -> same_graph G s I sizes p0 np.
+Proof. exact @export_same_graph. Qed.
+Print Assumptions C01_export_same_graph.
+
+(* non-vacuity *)
+Theorem C01_export_hypotheses_satisfiable : check_schedule ex_I = true /\ check_replay ex_I (2 :: 1 :: nil) 0 3 = true /\ sched_ok ex_I 0 3 = true.
+Proof. exact @ex_export_hyps. Qed.
+Print Assumptions C01_export_hypotheses_satisfiable.
+
+(* the theorem applied to the exported two-node execution *)
+Theorem C01_export_instance : forall x1 x2 : Z * Z, T_a exG exS 1%nat 2 = Some x1 -> Tc ex_I (2 :: 1 :: nil) 0 3 1%nat 2 = Some x2 -> x1 = x2.
+Proof. exact @ex_export_agree. Qed.
+Print Assumptions C01_export_instance.
+
+(* both executions define the vertex (1,2) there and the compiled window holds producer outputs 1 and 2 *)
+Theorem C01_export_defined : T_a exG exS 1%nat 2 = Some (1943, 17693) /\ Tc ex_I (2 :: 1 :: nil) 0 3 1%nat 2 = Some (1943, 17693) /\ wins_c ex_I (2 :: 1 :: nil) 0 3 1 2 = (0%nat, (1, 12, 13) :: (2, 22, 23) :: nil) :: nil.
+Proof. exact @ex_export_defined. Qed.
+Print Assumptions C01_export_defined.
